@@ -1,7 +1,7 @@
 (* C10 — A failed parse reports a real failure offset - the furthest one without memo. *)
 From PegV Require Import Utf8 Utf8Facts State Terminals TerminalsSpec TerminalsOk Syntax Fields
   FieldsFacts GetFieldsFacts Literals LiteralsFacts Model Spec ShapeFacts ErrLog Sim Conform ConformX Extracted Real.
-From PegV Require Import CleanFrame UsualShape NoSentinel UsualShapeExamples.
+From PegV Require Import CleanFrame UsualShape Indirect NoSentinel UsualShapeExamples.
 From PegV Require Local LocalConform.
 
 Theorem C10_facts :
@@ -149,3 +149,41 @@ Proof.
   rewrite E in C. exact C.
 Qed.
 Print Assumptions C10_furthest_clean_part.
+
+(* the same clause for recursion through a plain rule, the style of the documentation and of the calculator
+   example ( @leftrec A = @:P | b...;  P = l:*A x... , A's other alternatives over the clean set): a failing
+   parse of A entered with no sentinel recorded never reports the sentinel *)
+Theorem C10_no_sentinel_indirect :
+  forall (ustate : Type) (scfg : state_cfg),
+  rec_le scfg = true ->
+  forall (tcfg : term_cfg) (fcfg : fields_cfg) (rcfg : rule_cfg),
+  leftrec_closed rcfg = true ->
+  forall (hk : hooks ustate) (g : grammar) (A P : rule) (l : name) (bx : bool) 
+    (x1 : expr) (xs : list expr) (b1 : expr) (balts : list expr),
+  r_def A = idef P b1 balts ->
+  r_def P = pdef A l bx x1 xs ->
+  find_grule g (r_name A) = Some (GRule A) ->
+  find_grule g (r_name P) = Some (GRule P) ->
+  fl_left_recursive (flags_of (r_directives A)) = true ->
+  fl_left_recursive (flags_of (r_directives P)) = false ->
+  fl_memoize (flags_of (r_directives P)) = false ->
+  forall rfA fdsA innerA1 rfP fdsP1 : list fdesc,
+  get_fields fcfg (gf_fuel g) g (idef P b1 balts) = GFOk rfA ->
+  get_fields fcfg (gf_fuel g) g (pdef A l bx x1 xs) = GFOk rfP ->
+  filt fcfg g (actx A rfA) (idef P b1 balts) = Some fdsA ->
+  own_fields fcfg g (ialt1 P) = Some innerA1 ->
+  filt fcfg g (actx P rfP) (palt A l bx x1 xs) = Some fdsP1 ->
+  forall clean : name -> bool,
+  (forall n : name, clean n = true -> rule_clean g clean n) ->
+  (forall (n : name) (r : rule),
+   clean n = true -> find_rule g n = Some r -> eclean clean (r_def r) = true) ->
+  clean n_Whitespace = true ->
+  lclean clean (b1 :: balts) = true ->
+  forall (st : pstate) (F : nat) (gl : glob ustate) (e : perr) (gl' : glob ustate),
+  Wi g A P rfA rfP st ->
+  (forall f : perr, far st = Some f -> e_spec f <> LeftRecursionSentinel) ->
+  cache_get (r_name A) (off st) (g_cache gl) = None ->
+  ev_rule (run ustate scfg tcfg fcfg rcfg hk g F) (r_name A) st gl = (MErr e, gl') ->
+  e_spec e <> LeftRecursionSentinel.
+Proof. exact indirect_no_sentinel. Qed.
+Print Assumptions C10_no_sentinel_indirect.
